@@ -4,6 +4,7 @@
  (2) code -> spec: seeded v2 and v3 dumps (v3 with log blocks, several chunks) x filter configurations (any tid,
      class / subclass lists incl. empty, overlapping, duplicated, absent classes), lists and tuples; kevents and log
      listings validated by Pipeline_Val in TLC."""
+import io
 import random
 
 from . import gen
@@ -73,6 +74,21 @@ def run(ctx):
             op = 'logs' if logs is not None and rnd.random() < 0.4 else 'kevents'
             r, _ = request(w, p, dump, op)
             reqs.append(r)
+        # an object AS CREATED (no option ever touched - while other objects of the caller had their option lists extended in
+        # place, see decoy.py) has no filter: it lists every event record / every log record of the dump
+        if i % 4 == 0:
+            from . import decoy
+            if i % 16 == 0:
+                decoy.burst()
+            for op_, want_ in (('kevents', len(dump.stream)), ('os_log_events', len(logs or []))):
+                fresh = PyKdebugParser()
+                try:
+                    n_ = sum(1 for _ in getattr(fresh, op_)(io.BytesIO(dump.blob)))
+                except Exception as ex:
+                    n_ = 'raised %r' % ex
+                if n_ != want_ and not (op_ == 'os_log_events' and logs is None):
+                    ctx.violation('C12/object-as-created-filters/%s' % op_, 'a new PyKdebugParser() (no option set) lists %s of the %d records'
+                                  % (n_, want_), {'kind': 'pipeline', 'requests': [], 'file_hex': dump.blob.hex(), 'stream': describe(w, dump.stream)})
         # the command-line interface must print exactly what the library lists for the same options
         if i % (5 if ctx.quick else 3) == 0:
             from .pipeline import cli_lines, api_lines
